@@ -430,6 +430,7 @@ func (s *Sim) pick(exclude int) int {
 		if nt < 0 {
 			s.abort = true
 			s.Reason = StopDeadlock
+			s.noteBlocked()
 			return -1
 		}
 		s.Now = nt
@@ -606,11 +607,8 @@ func (s *Sim) Run() {
 	}
 	// teardown of parked tasks
 	if s.abort {
-		for i := 0; i < s.ntasks; i++ {
-			t := s.tasks[i]
-			if t.state != tsDone {
-				s.Blocked = append(s.Blocked, t.Name+": "+s.descWait(t))
-			}
+		if len(s.Blocked) == 0 {
+			s.noteBlocked()
 		}
 		for i := 0; i < s.ntasks; i++ {
 			t := s.tasks[i]
@@ -625,6 +623,19 @@ func (s *Sim) Run() {
 	s.cur = -1
 	active = nil
 	s.wg.Wait()
+}
+
+// noteBlocked records what every unfinished task is waiting for (called once,
+// from whichever task detects that nothing can run).
+//
+//go:norace
+func (s *Sim) noteBlocked() {
+	for i := 0; i < s.ntasks; i++ {
+		t := s.tasks[i]
+		if t.state != tsDone {
+			s.Blocked = append(s.Blocked, t.Name+": "+s.descWait(t))
+		}
+	}
 }
 
 //go:norace
